@@ -14,7 +14,7 @@ def check(run):
     K = 3 if quick else 4
     rnd = random.Random(run.seed)
     schemes = versgen.SCHEMES
-    cfg = vlib.cfg_consts(K=K, Schemes=set(schemes)) + \
+    cfg = vlib.cfg_consts(K=K, Schemes=set(schemes), ChainNo=1) + \
         "INIT VInit\nNEXT VNext\nINVARIANT SweepIsDen\nINVARIANT EmitVariants\nCHECK_DEADLOCK FALSE\n"
     lines, st, dt = vlib.tlc(run, "MC_Vers", cfg, name="variants", workers=8, timeout=2400, heap="10g")
     vecs = vlib.tagged(lines, "VEC")
